@@ -142,11 +142,31 @@ def gen_hist(rng, maxops):
     return Case("hist", [kind, alpha_id, prow(rows), ";".join(ops) if ops else "_"], changing >= 2, "hist-" + kind)
 
 
+def gen_big(rng):
+    """containers of 13..40 rows (sort.Slice is an insertion sort — stable — up to 12 elements), names made equal by
+    renames, then order-sensitive operations"""
+    kind = rng.choice("AB")
+    n = rng.randint(13, 40)
+    L = rng.randint(2, 5)
+    rows = [("r%02d" % i, rseq(rng, "ACGT", L)) for i in range(n)]
+    rng.shuffle(rows)
+    groups = ["G%d" % i for i in range(rng.randint(1, 4))]
+    olds = rng.sample([r[0] for r in rows], rng.randint(4, n))
+    ops = ["rename:" + "/".join(pct(o) + "/" + pct(rng.choice(groups)) for o in olds)]
+    for _ in range(rng.randint(1, 4)):
+        ops.append(rng.choice(["sort", "sort", "dedup:0", "shuffle:%d" % rng.randint(0, 10 ** 6), "cleannames", "clone",
+                               "rename:" + pct(rng.choice(groups)) + "/" + pct(rng.choice(groups + ["H"]))]))
+    ops.append("sort")
+    return Case("hist", [kind, 1, prow(rows), ";".join(ops)], True, "hist-big-" + kind)
+
+
 def gen(rng, tier):
     n = 1500 if tier == "quick" else 15000
     maxops = 12 if tier == "quick" else 40
     for _ in range(n):
         yield gen_hist(rng, maxops if rng.random() < 0.7 else 4)
+    for _ in range(n // 25):
+        yield gen_big(rng)
 
 
 def shrink(c):
@@ -186,9 +206,23 @@ def classify(c):
     k = _step(c.verdict)
     ops = c.args[3].split(";")
     if c.args[0] == "A" and (c.verdict or "").startswith("fail:ragged-step") and k and 1 <= k <= len(ops) \
-            and ops[k - 1].startswith("translate:-1:"):
+            and ops[k - 1].startswith("translate:-1:") and _rows_unequal(c.impl, k):
+        # the finding is: the three frames have different numbers of residues.  Rows of EQUAL length with a wrong
+        # cached length (L mod 3 = 2) are a different violation and are reported
         return "align-translate-3frames-ragged"
     return None
+
+
+def _rows_unequal(impl, k):
+    steps = (impl or "").split(";")
+    if k >= len(steps):
+        return False
+    m = re.search(r"(?:^|[ |])it=(\S*)", steps[k])
+    if not m:
+        return False
+    f = m.group(1).split("/")
+    lens = {len(x) for x in f[1::2]}
+    return len(lens) > 1
 
 
 def matches(c):
